@@ -5,6 +5,9 @@ pub mod c02;
 pub mod c03;
 pub mod c04;
 pub mod c13;
+pub mod c14;
+pub mod c17;
+pub mod c18;
 pub mod dom;
 
 pub struct Entry {
@@ -22,6 +25,9 @@ pub const ENTRIES: &[Entry] = &[
     Entry { id: "C11", run: dom::run_c11 },
     Entry { id: "C12", run: dom::run_c12 },
     Entry { id: "C13", run: c13::run },
+    Entry { id: "C14", run: c14::run },
+    Entry { id: "C17", run: c17::run },
+    Entry { id: "C18", run: c18::run },
 ];
 
 pub fn lookup(id: &str) -> Option<&'static Entry> {
